@@ -210,7 +210,7 @@ BOUNDED = {
              'functions': ['feel-parser/src/lalr.rs (tables)', 'Parser::parse (table lookups)', 'Lexer::read_next_token / consume_name for operators, keywords and the type name after `instance of`'],
              'bound': 'every syntax tree of one, two or three nested operators (every ordered pair and triple, every operand position) over or, and, =, <, between (all three operand positions), in, +, -, *, /, **, unary minus, instance of, filter, path with bound '
                       'single-word names as leaves (about 5 900 trees, 31 000 parses): fully parenthesised and minimally parenthesised renderings give the same tree, one needed pair of parentheses removed gives a different tree; '
-                      'minimal parenthesisation computed from the precedence declarations of feel-grammar/src/feel.y with the yacc conflict rule; plus 29 hand-written (fully parenthesised, minimal) pairs for the constructs that extend to the right - if, for, some, every, function - around in, or, and, +, comparisons and each other'},
+                      'minimal parenthesisation computed from the precedence declarations of feel-grammar/src/feel.y with the yacc conflict rule; plus 39 hand-written (fully parenthesised, minimal) pairs - 10 of them unary tests, where `not` is the negation keyword only as the first token - for the constructs that extend to the right - if, for, some, every, function - around in, or, and, +, comparisons and each other'},
             {'name': 'layouts-do-not-change-the-tree', 'script': 'layoutdiff.py', 'args': [],
              'functions': ['Lexer::read_next_token (keyword patterns over the look-ahead window)', 'Lexer::is_next_character', 'Lexer::read_input / consume_whitespace / consume_comment end to end'],
              'bound': '62 token sequences covering every keyword and bracket of the expression language, each laid out with 16 separators (runs of spaces, tab, LF, CR LF, no-break / em / ideographic space, line and paragraph separator, '
